@@ -11,6 +11,9 @@ checks = {
  "C03": dict(technique="runtime monitoring: generated slice/string programs executed under real /bin/bash, judged by an independent reference interpreter",
    text="Differential runtime monitoring of slice and string operations: all substring index pairs up to length 12, growth/gap-fill for old lengths 0..12, aliasing chains, copy for all length pairs, range forms, plus a random sweep with arbitrary int index expressions.",
    note="Trusted: RefLang interpreter (slices as shared growable vectors), /bin/bash 5.2. Undefined cases (out-of-range, resize while ranging, copy into longer dst) discarded.", ref="§3 C03"),
+ "C14": dict(technique="runtime monitoring: offline checker over a recorded event log of Transpile calls across histories, processes and tree locations (hash equality per program and target)",
+   text="History monitor: every ordered pair of (program, target) calls and random histories of 3-15 calls on one transpiler object, the corpus in 8/64 fresh processes and in relocated copies of the source tree (deep path, blanks, relative path); an offline checker over the event log requires one script hash per (program, target); a recording wrapper at the Converter boundary additionally requires identical call traces.",
+   note="Trusted: the event log and its checker. A fresh converter per call, as the contract states; error texts compared only as 'is an error'.", ref="§3 C14"),
  "C13": dict(technique="runtime monitoring: hostile inputs fed to the real Transpile in supervised child processes; result-shape predicate, panic/death/hang detection with isolated confirmation",
    text="Robustness monitor: all single-token edits of a corpus of valid programs, double edits, random bytes and token soups, semantic near-misses, file/import configurations including all 512 import graphs over three files; every input runs in a supervised worker process under recover(); the oracle is the result shape (exactly one of script/error, non-empty error, no panic, no process death, return within the bound).",
    note="Trusted: the supervision harness. Termination bound is a watchdog 3-4 orders of magnitude above normal cost, confirmed in isolation before it is reported.", ref="§3 C13"),
